@@ -55,6 +55,8 @@ def _record_jobs(ctx, exe, jobs, timeout=1800):
         seed = vlib.derive_seed(ctx.seed, label, 0)
         out = os.path.join(ctx.tmp, slabel + ".ndjson")
         cmd = [exe, "--seed", str(seed), "--events", "0", "--out", out] + list(args)
+        if ctx.known:
+            cmd += ["--avoid", ",".join(sorted(ctx.known))]
         p = subprocess.run(["timeout", "-k", "5", str(timeout)] + cmd, env=vlib.run_env(), stdout=subprocess.PIPE,
                            stderr=subprocess.PIPE, text=True, errors="replace")
         return label, slabel, seed, out, args, p
@@ -65,7 +67,7 @@ def _record_jobs(ctx, exe, jobs, timeout=1800):
             if p.returncode != 0:
                 path = os.path.join(ctx.replay_dir, "rec-%s-%d.json" % (slabel, seed))
                 with open(path, "w") as f:
-                    json.dump({"recorder": "c08_record", "seed": seed, "events": 0, "args": list(args), "exit": p.returncode, "avoid": []}, f)
+                    json.dump({"recorder": "c08_record", "seed": seed, "events": 0, "args": list(args), "exit": p.returncode, "avoid": sorted(ctx.known)}, f)
                     f.write("\n")
                 ctx.violation("%s: recorder died with exit %s\n%s" % (label, p.returncode, (p.stderr or "")[-3500:]), path=path)
                 continue
